@@ -40,7 +40,7 @@ ASSUMPTIONS = [
   'with overwrite=True a crash in the middle of removing several newer steps may leave an intermediate newer step as latest; the oracle then requires latest to be a complete previously committed step (narrow reading, see DESIGN.md)',
   'save_checkpoint_multiprocess, multi-host arrays, GCS paths, Orbax AsyncCheckpointer are not covered',
 ]
-PROBES = ['orbax_histories', 'half_deleted_old_step', 'leftover_tmp_after_crash', 'crash_after_commit', 'crash_before_commit', 'retry_rejected_committed', 'overwrite_removed_newer', 'keep_every_retained', 'chunked_leaf', 'async_latest_in_flight', 'sweep_points', 'policy_error_expected', 'torn_write', 'ioerror_runs']
+PROBES = ['restore_by_path', 'orbax_histories', 'half_deleted_old_step', 'leftover_tmp_after_crash', 'crash_after_commit', 'crash_before_commit', 'retry_rejected_committed', 'overwrite_removed_newer', 'keep_every_retained', 'chunked_leaf', 'async_latest_in_flight', 'sweep_points', 'policy_error_expected', 'torn_write', 'ioerror_runs']
 
 GOOD_PREFIXES = ['checkpoint_', 'ckpt', 'a_b_', 'run1_', 'model.x']
 BAD_PREFIXES = ['m-', 'v2.', 'run1']  # end in '-', '.', digit: were glued to the step before fix 943634b
@@ -432,13 +432,23 @@ class World:
 
   def check_restore(self, s, ent, where, target=False, parallel=True):
     t = self.tree_of(ent)
+    self.nrestore = getattr(self, 'nrestore', 0) + 1
+    # the three ways to address a checkpoint: directory + step, directory given as a pathlib path, the checkpoint path itself
+    how = self.nrestore % 3
+    import pathlib
+
+    d = pathlib.PurePosixPath(self.dir) if how == 1 else self.dir
+    kw = dict(step=s, prefix=self.prefix)
+    if how == 2:
+      d, kw = self.path(s), dict(prefix=self.prefix)
+      self.res.probe('restore_by_path')
     try:
       if target:
         tmplt = make_tree(ent[0] + 1000, ent[1])
-        r = checkpoints.restore_checkpoint(self.dir, tmplt, step=s, prefix=self.prefix, parallel=parallel)
+        r = checkpoints.restore_checkpoint(d, tmplt, parallel=parallel, **kw)
         ok = same(r, t, typed=True)
       else:
-        r = checkpoints.restore_checkpoint(self.dir, None, step=s, prefix=self.prefix, parallel=parallel)
+        r = checkpoints.restore_checkpoint(d, None, parallel=parallel, **kw)
         ok = same(r, state_dict(t))
     except D.SimCrash:
       raise
@@ -541,8 +551,11 @@ class World:
     return any(s > step for s in self.model)  # legacy back-end rejects every step older than the latest
 
   def raw_save(self, op, ent, am=None):
+    import pathlib
+
+    d = pathlib.PurePosixPath(self.dir) if (ent[0] % 4 == 1) else self.dir
     return checkpoints.save_checkpoint(
-      self.dir, self.tree_of(ent), op['step'], prefix=self.prefix, keep=op['keep'], overwrite=op['overwrite'], keep_every_n_steps=op['every'], async_manager=am
+      d, self.tree_of(ent), op['step'], prefix=self.prefix, keep=op['keep'], overwrite=op['overwrite'], keep_every_n_steps=op['every'], async_manager=am
     )
 
   def measure(self, op, ent):
